@@ -42,7 +42,7 @@ func Configs(thorough bool) []Cfg {
 			{stacks.Config{Kind: "map", InnerMTU: 64}, [][2]int{{3, 64}}},
 			{stacks.Config{Kind: "wl", InnerMTU: 64}, [][2]int{{3, 64}}},
 			{stacks.Config{Kind: "p2pke"}, [][2]int{{0, 100}, {7, 7}}},
-			{stacks.Config{Kind: "frag-p2pke", InnerMTU: 80, MTU: 200}, [][2]int{{46, 45}}},
+			{stacks.Config{Kind: "frag-p2pke", InnerMTU: 576, MTU: 1200}, [][2]int{{542, 541}}}, // part = 576-20-15; the handshake needs > 80 bytes
 			{stacks.Config{Kind: "mux-frag", InnerMTU: 40, MTU: 100}, [][2]int{{30, 10}}},
 			{stacks.Config{Kind: "mbapp-mux", InnerMTU: 64, MTU: 200}, [][2]int{{40, 10}}},
 			{stacks.Config{Kind: "multi-p2pke"}, [][2]int{{5, 60}}},
